@@ -290,8 +290,41 @@ def misc_cell(cell, common):
                     bad = "shape %r" % (res.shape,)
                 elif not np.array_equal(res, ref):
                     bad = "result depends on the completion order"
+                if bad is None and nmax > 1:
+                    # every thread has its own generator: no two threads' chunks
+                    # may be bit-identical (chunk = ceil(d / nt) consecutive
+                    # entries; only asserted for chunks of >= 4 entries)
+                    import math as _m
+
+                    S = _m.ceil(d / nt)
+                    if S >= 4:
+                        flat = res.ravel()
+                        chunks = [flat[i * S : (i + 1) * S] for i in range(nt)]
+                        full = [c for c in chunks if len(c) == S]
+                        for a_ in range(len(full)):
+                            for b_ in range(a_ + 1, len(full)):
+                                if np.array_equal(full[a_], full[b_]):
+                                    bad = "threads %d and %d produced bit-identical chunks (shared / identically seeded generators)" % (a_, b_)
                 if bad:
                     out.append(table.bad(core.problem("randn(%d,%s,nt=%d,%s) order %s: %s" % (d, dtype, nt, dist, pol, bad), root="randn", entry="randn"), sub=(kind, d, nt, dtype, dist)))
+                    return out
+            if nt >= 3 and d >= 4 * (nt + 4):
+                # history: seed once, draw with nt threads, then with nt + 4
+                # threads WITHOUT reseeding: nothing already handed out may be
+                # handed out again, and no two new chunks may coincide
+                def hist():
+                    a_ = np.asarray(qu.randn(d, dtype=dtype, num_threads=nt, seed=13, dist=dist)).copy()
+                    b_ = np.asarray(qu.randn(d, dtype=dtype, num_threads=nt + 4, dist=dist)).copy()
+                    return a_, b_
+
+                (ha, hb), log, fs = seam.run(hist, ("id", 0))
+                import math as _m
+
+                Sa, Sb = _m.ceil(d / nt), _m.ceil(d / (nt + 4))
+                L = min(Sa, Sb)
+                heads = [tuple(np.round(ha.ravel()[i * Sa : i * Sa + L], 12).tolist()) for i in range(nt)] + [tuple(np.round(hb.ravel()[i * Sb : i * Sb + L], 12).tolist()) for i in range(nt + 4) if len(hb.ravel()[i * Sb : i * Sb + L]) == L]
+                if L >= 4 and len(set(heads)) != len(heads):
+                    out.append(table.bad(core.problem("randn(%d,%s,%s): after seeding once, a draw with %d threads then one with %d threads re-emitted an identical stream prefix" % (d, dtype, dist, nt, nt + 4), root="randn", entry="randn", kind="stream-reuse"), sub=(kind, d, nt, dtype, dist, "hist")))
                     return out
         out.append(table.ok(key=(kind, d, nt, dtype, dist), nontrivial=nmax > 1, outcome="randn:tasks=%d" % nmax, sub=(kind, d, nt, dtype, dist)))
     return out
@@ -363,9 +396,25 @@ def builder_cell(cell, common):
             except Exception as ex:
                 out.append(table.bad(core.problem("parallel=%r build/matvec on %s raised %s: %s" % (par, sub, type(ex).__name__, str(ex)[:100]), root="builder-parallel", entry="matvec", kind="exception"), sub=sub + ("mv",)))
                 break
-            facts = sched.analyse(log) + sched.analyse(log2) + sched.analyse(log3)
+            # caller-supplied, NON-ZERO out= buffer, re-used for a second vector:
+            # the result must be H @ x whatever the buffer held before
+            try:
+                x2 = x[::-1].copy()
+                buf = np.full(D, 3.0 + 1.0j, dtype="complex128")
+                Bo = mk()
+                yo1, log4, _ = seam.run(lambda: Bo.matvec(x, out=buf, parallel=par, **kw), pol)
+                yo1 = np.array(yo1, copy=True)
+                yo2, log5, _ = seam.run(lambda: Bo.matvec(x2, out=buf, parallel=par, **kw), pol)
+            except Exception as ex:
+                out.append(table.bad(core.problem("parallel=%r matvec(out=) on %s raised %s: %s" % (par, sub, type(ex).__name__, str(ex)[:100]), root="builder-parallel", entry="matvec-out", kind="exception"), sub=sub + ("mvout",)))
+                break
+            facts = sched.analyse(log) + sched.analyse(log2) + sched.analyse(log3) + sched.analyse(log4) + sched.analyse(log5)
             if facts:
                 bad = "%s %s" % facts[0]
+            elif not np.allclose(yo1, yref, rtol=1e-12, atol=1e-12):
+                bad = "matvec(x, out=<non-zero buffer>) differs from matrix @ x"
+            elif not np.allclose(yo2, ref @ x2, rtol=1e-12, atol=1e-12) or yo2 is not buf:
+                bad = "second matvec into the same out= buffer differs from matrix @ x2 (or out not returned)"
             elif not np.allclose(m.toarray(), ref, rtol=1e-12, atol=1e-12):
                 bad = "build_sparse_matrix differs from serial"
             elif not np.allclose(y, yref, rtol=1e-12, atol=1e-12):
@@ -435,7 +484,7 @@ def run(ctx):
     table.run(ctx, "kernel_cell", kcells, common={"nts": nts, "tbs": tbs}, name="B:kernels", chunk=2)
     mcells = [{"kind": "par_reduce", "n": n, "nt": nt} for n in range(1, 8) for nt in (2, 3, 4)]
     mcells += [{"kind": "kron_parallel", "n": n, "nt": nt, "sparse": sp_} for n in range(2, 7) for nt in (2, 3) for sp_ in (False, True)]
-    mcells += [{"kind": "randn", "d": d, "nt": nt, "dtype": dt, "dist": dist} for d in (1, 2, 3, 5, 8, 9, 17, 40) for nt in (1, 2, 3, 4, 5, 8) for dt in ("float64", "complex128", "float32") for dist in (("normal", "uniform") if thorough else ("normal",))]
+    mcells += [{"kind": "randn", "d": d, "nt": nt, "dtype": dt, "dist": dist} for d in (1, 2, 3, 5, 8, 9, 17, 40, 96) for nt in (1, 2, 3, 4, 5, 8, 12) for dt in ("float64", "complex128", "float32") for dist in (("normal", "uniform") if thorough else ("normal",))]
     table.run(ctx, "misc_cell", mcells, name="C:reduce-kron-randn", chunk=4)
     bcells = [{"terms": t, "sector": s, "parallel": p} for t in TERMSETS for s in SECTORS[t] for p in (1, 2, 3, 4, 7)]
     table.run(ctx, "builder_cell", bcells, name="D:builder-parallel", chunk=1)
